@@ -3,6 +3,7 @@ import DaskModel.Lemmas.Subs
 import DaskModel.Lemmas.SubsRename
 import DaskModel.Lemmas.SpecSubst
 import DaskModel.Lemmas.SpecFuse
+import DaskModel.Lemmas.FuseLinear5
 import DaskModel.Lemmas.FusedName
 /-!
 # C09 — low-level graph optimisations preserve requested values
@@ -403,6 +404,39 @@ example : evalKeyF
                         (.str "c", .task (.call (.fn 1)) [.ref (.str "b")] [])] (.str "c") []),
      (.str "c", .plain (.alias (.str "n")))] (fun _ => none) 6 (.str "c") =
     some (.app 1 [.app 0 [.int 1] []] []) := by decide
+
+/-- **`fuse_linear_task_spec` preserves the requested values — for all inputs.** For every task-spec DAG (a rank that
+    decreases along dependencies) with duplicate-free keys, every list of requested keys and *every* renamer (in
+    particular one with collisions: the code falls back to the top key when a name is taken), the transliterated
+    `fuse_linear_task_spec` (walk down / walk up over `dependencies`/`dependents`, `seen`, `GraphNode.fuse`, alias to the
+    renamed key) returns a graph that contains every requested key of the input and in which every key present in both
+    graphs computes the same value, whatever the cache holds for keys outside the graph. Proof: the loop invariant `FLInv`
+    (every seen key is either an untouched entry or an inner key of exactly one fused chain whose non-top keys have their
+    successor as only dependent and are not requested) gives the conditions of `fuse_spec_preserves_eval`. -/
+theorem fuse_linear_task_spec_preserves_eval (g : NGraph) (req : List Obj) (rename : List Obj → Option Obj)
+    {rank : Obj → Nat} (hnodup : (g.map Prod.fst).Nodup) (hdag : DagRank g rank) (cache : Obj → Option Obj) :
+    (∀ k ∈ req, (g.lookup k).isSome → ((fuseLinearSpec g req rename).lookup k).isSome) ∧
+    ∀ k, (g.lookup k).isSome → ((fuseLinearSpec g req rename).lookup k).isSome →
+      ∀ v, ComputesF (fuseLinearSpec g req rename) cache k v ↔ Computes g cache k v :=
+  fuseLinearSpec_preserves_eval g req rename hnodup hdag cache
+
+/-- non-vacuity: `a → b → c` is a DAG with unique keys, and with `c` requested it is fused into one task stored under
+    the renamer's name with `c` left as an alias -/
+example : DagRank [(.str "a", .data (.int 1)), (.str "b", .task (.call (.fn 0)) [.ref (.str "a")] []),
+      (.str "c", .task (.call (.fn 1)) [.ref (.str "b")] [])]
+    (fun k => if k == .str "c" then 2 else if k == .str "b" then 1 else 0) := by
+  intro k n hm d hd
+  simp only [List.mem_cons, Prod.mk.injEq, List.not_mem_nil, or_false] at hm
+  rcases hm with ⟨rfl, rfl⟩ | ⟨rfl, rfl⟩ | ⟨rfl, rfl⟩
+  · simp [Node.deps] at hd
+  · simp [Node.deps, depsList, depsKw] at hd; subst hd; decide
+  · simp [Node.deps, depsList, depsKw] at hd; subst hd; decide
+example : (fuseLinearSpec [(.str "a", .data (.int 1)), (.str "b", .task (.call (.fn 0)) [.ref (.str "a")] []),
+      (.str "c", .task (.call (.fn 1)) [.ref (.str "b")] [])] [.str "c"] (fun _ => some (.str "n"))).map Prod.fst =
+    [.str "n", .str "c"] ∧
+    evalKeyF (fuseLinearSpec [(.str "a", .data (.int 1)), (.str "b", .task (.call (.fn 0)) [.ref (.str "a")] []),
+      (.str "c", .task (.call (.fn 1)) [.ref (.str "b")] [])] [.str "c"] (fun _ => some (.str "n")))
+      (fun _ => none) 6 (.str "c") = some (.app 1 [.app 0 [.int 1] []] []) := by decide
 
 /-! ### names of fused tasks (`default_fused_keys_renamer`) -/
 
